@@ -108,7 +108,7 @@ def finalSizes (s : TState) : String :=
 def model (line : String) : String :=
   match words line with
   | "scn" :: tr :: bw :: _ :: _ :: ops =>
-    let evs := events (tr == "udp") (bw == "1") (ops.map (·.splitOn ":"))
+    let evs := events (tr.startsWith "udp") (bw == "1") (ops.map (·.splitOn ":"))
     finalSizes (trun evs)
   | ["disc", _] => "final:0,0"
   | _ => "bad-op"
